@@ -11,6 +11,7 @@ C08's theorems.
 -/
 import Tough.Model.Cache
 import Tough.Proofs.ClientCongr
+import Tough.Proofs.ClientReqs
 import Tough.Proofs.ExceptDec
 namespace Tough.C19
 open Tough.Sig Tough.Client Tough.Cache
@@ -98,8 +99,121 @@ theorem copy_serves_only_copied (srv : Server) (files : List FileName) (f : File
     | openErr => simp [hs] at h
   · rw [if_neg hm] at h; cases h
 
-/-! the hypotheses of `cached_copy_loads_alike` are evaluated by the driver on every generated
-repository (`spec_on_model`): every file the loading cycle requests is among `metaFiles`, or absent
-from the source. -/
+/-- the file of a delegated role of the loaded tree, at the version the snapshot lists, is what
+`delegated_filename` computes -/
+theorem roleFile_of_listed (v : View) (r : Nat) (m : Meta) (h : v.snap.find (.role r) = some m) :
+    roleFile v r = some (.role r (versioned v.root.consistent m.version)) := by
+  unfold roleFile versioned
+  cases v.root.consistent <;> simp [h]
+
+/-- **C19.d (the copied files cover the loading cycle).** Every file a successful update cycle asked
+for is among the files `cache` copies (with the root chain), or is the probe for the root version after
+the trusted one.  (`cycle_reqsIn`, `Tough/Proofs/ClientReqs.lean`.) -/
+theorem requests_covered (cfg : Config) (srv : Server) (shipped : Option Root) (ds : Datastore) (v : View)
+    (h : (cycle cfg srv shipped ⟨ds, []⟩).1 = .ok v) :
+    ∀ f ∈ (cycle cfg srv shipped ⟨ds, []⟩).2.reqs, f ∈ metaFiles v true ∨ f = .rootV (v.root.version + 1) := by
+  have hc : cycle cfg srv shipped ⟨ds, []⟩ = (.ok v, (cycle cfg srv shipped ⟨ds, []⟩).2) := by rw [← h]
+  intro f hf
+  rcases cycle_reqsIn hc f hf with h0 | ⟨k, rfl, h1, _, h2⟩ | rfl | rfl | rfl | ⟨r, hr, m, hm, rfl⟩
+  · simp [St.reqs] at h0
+  · by_cases hk : k = v.root.version + 1
+    · exact Or.inr (by rw [hk])
+    · exact Or.inl (root_chain_complete v k h1 (by omega))
+  · exact Or.inl (by simp [metaFiles])
+  · exact Or.inl (by simp [metaFiles])
+  · exact Or.inl (by simp [metaFiles])
+  · refine Or.inl ?_
+    simp only [metaFiles, List.mem_append, List.mem_filterMap]
+    exact Or.inl (Or.inr ⟨r, hr, roleFile_of_listed v r m hm⟩)
+
+/-- **C19 (a copy of a loaded repository loads like the original).** A client loads a repository
+(`v`); `cache` copies the metadata with the root chain and succeeds (every file on its list could be
+copied); the source has no root version after the trusted one.  Then the same client — same shipped
+root, configuration, clock and datastore — loads the copy exactly as it loaded the original: same view,
+same datastore, same requests. -/
+theorem copy_of_loaded_repository_loads_alike (cfg : Config) (srv : Server) (shipped : Option Root) (ds : Datastore)
+    (v : View) (h : (cycle cfg srv shipped ⟨ds, []⟩).1 = .ok v)
+    (hcopied : ∀ f ∈ metaFiles v true, copyable srv f = true)
+    (hprobe : srv.get (.rootV (v.root.version + 1)) = .notFound) :
+    cycle cfg (cachedServer srv (metaFiles v true)) shipped ⟨ds, []⟩ = cycle cfg srv shipped ⟨ds, []⟩ := by
+  apply cached_copy_loads_alike
+  · intro f hf
+    have := hcopied f hf
+    unfold copyable at this
+    cases hs : srv.get f with
+    | file x => exact ⟨x, rfl⟩
+    | notFound => simp [hs] at this
+    | openErr => simp [hs] at this
+  · intro f hf
+    rcases requests_covered cfg srv shipped ds v h f hf with h1 | rfl
+    · exact Or.inl h1
+    · exact Or.inr hprobe
+
+/-- **C19.e (without the root chain).** The copy made without the root chain holds the same files except
+the roots; a client that ships the root the original was loaded to asks only for later root versions -/
+theorem requests_covered_from_trusted_root (cfg : Config) (srv : Server) (R : Root) (ds : Datastore) (w : View)
+    (h : (cycle cfg srv (some R) ⟨ds, []⟩).1 = .ok w) :
+    ∀ f ∈ (cycle cfg srv (some R) ⟨ds, []⟩).2.reqs, f ∈ metaFiles w false ∨ ∃ k, f = .rootV k ∧ R.version < k := by
+  have hc : cycle cfg srv (some R) ⟨ds, []⟩ = (.ok w, (cycle cfg srv (some R) ⟨ds, []⟩).2) := by rw [← h]
+  intro f hf
+  rcases cycle_reqsIn hc f hf with h0 | ⟨k, rfl, _, h1, _⟩ | rfl | rfl | rfl | ⟨r, hr, m, hm, rfl⟩
+  · simp [St.reqs] at h0
+  · exact Or.inr ⟨k, rfl, h1 R rfl⟩
+  · exact Or.inl (by simp [metaFiles])
+  · exact Or.inl (by simp [metaFiles])
+  · exact Or.inl (by simp [metaFiles])
+  · refine Or.inl ?_
+    simp only [metaFiles, List.mem_append, List.mem_filterMap]
+    exact Or.inl (Or.inr ⟨r, hr, roleFile_of_listed w r m hm⟩)
+
+/-- a client that ships the trusted root loads a copy made without the root chain like the original,
+provided the source has no later root version -/
+theorem copy_without_chain_loads_alike (cfg : Config) (srv : Server) (R : Root) (ds : Datastore)
+    (w : View) (h : (cycle cfg srv (some R) ⟨ds, []⟩).1 = .ok w)
+    (hcopied : ∀ f ∈ metaFiles w false, copyable srv f = true)
+    (hprobe : ∀ k, R.version < k → srv.get (.rootV k) = .notFound) :
+    cycle cfg (cachedServer srv (metaFiles w false)) (some R) ⟨ds, []⟩ = cycle cfg srv (some R) ⟨ds, []⟩ := by
+  apply cached_copy_loads_alike
+  · intro f hf
+    have := hcopied f hf
+    unfold copyable at this
+    cases hs : srv.get f with
+    | file x => exact ⟨x, rfl⟩
+    | notFound => simp [hs] at this
+    | openErr => simp [hs] at this
+  · intro f hf
+    rcases requests_covered_from_trusted_root cfg srv R ds w h f hf with h1 | ⟨k, rfl, hk⟩
+    · exact Or.inl h1
+    · exact Or.inr (hprobe k hk)
+
+/-! `hprobe` is needed: `load_root` also stops at a file `(N+1).root.json` that cannot be opened or that
+carries version N again; such a file is not copied, and although the copy then stops at the same root
+the two cycles are no longer the same computation.  The driver evaluates `hcopied` and `hprobe` on every
+generated repository (`spec_on_model`). -/
+
+end Tough.C19
+
+namespace Tough.C19
+open Tough.Sig Tough.Client Tough.Cache
+
+/-! a complete little repository (two root versions, consistent snapshots, one delegated role): the
+hypotheses of `copy_of_loaded_repository_loads_alike` are satisfiable, six files are copied -/
+def root1E : Root := ⟨1, 100, true, [1, 2, 3, 4], some ⟨[1], 1⟩, some ⟨[3], 1⟩, some ⟨[4], 1⟩, some ⟨[2], 1⟩, 11, [⟨1, some 1, 11⟩]⟩
+def root2E : Root := ⟨2, 100, true, [1, 2, 3, 4], some ⟨[1], 1⟩, some ⟨[3], 1⟩, some ⟨[4], 1⟩, some ⟨[2], 1⟩, 21, [⟨1, some 1, 21⟩]⟩
+def roleE : TargetsDoc := ⟨3, 100, [(0, ⟨5, 77⟩)], none, 15, [⟨5, some 5, 15⟩]⟩
+def tgE : TargetsDoc := ⟨7, 100, [], some ⟨[5], [⟨9, [5], 1, [0]⟩]⟩, 14, [⟨4, some 4, 14⟩]⟩
+def snE : Snapshot := ⟨6, 100, [(.targets, ⟨7, none, none⟩), (.role 9, ⟨3, none, none⟩)], 13, [⟨3, some 3, 13⟩]⟩
+def tsE : Timestamp := ⟨5, 100, some ⟨6, none, none⟩, 12, [⟨2, some 2, 12⟩]⟩
+def cfgE : Config := ⟨⟨100, 100, 100, 100, 8⟩, true, 0⟩
+def srvE : Server :=
+  [(.rootV 1, .file ⟨.root root1E, some 10, 0, .none⟩), (.rootV 2, .file ⟨.root root2E, some 10, 0, .none⟩),
+   (.timestamp, .file ⟨.timestamp tsE, some 10, 0, .none⟩), (.snapshot (some 6), .file ⟨.snapshot snE, some 10, 0, .none⟩),
+   (.targets (some 7), .file ⟨.targets tgE, some 10, 0, .none⟩), (.role 9 (some 3), .file ⟨.targets roleE, some 10, 0, .none⟩)]
+
+
+example : ∃ v, (cycle cfgE srvE (some root1E) ⟨{}, []⟩).1 = .ok v ∧
+    (metaFiles v true).all (copyable srvE) = true ∧ srvE.get (.rootV (v.root.version + 1)) = .notFound ∧
+    (metaFiles v true).length = 6 ∧ tgtRoleNames v.tgt = [9] :=
+  ⟨_, rfl, by decide, by decide, by decide, by decide⟩
 
 end Tough.C19
